@@ -44,6 +44,9 @@ ALIASES = [
     ("C04.R10", c13.r2, "the include directories of an entry reach the platform in command-line order, resolved against the entry's directory (= C13.R2)"),
     ("C11.R10", c13.r2, "the extracted lists of an entry are not reordered or modified after extraction (= C13.R2)"),
     ("C06.R10", c13.r2, "what is analysed does not depend on the logging level: the entry lists are not touched by the debug dump (= C13.R2)"),
+    ("C13.R10", c09.r3, "which entries are skipped as 'not a source file' is decided on the last suffix, as FileLanguage does (= C09.R3)"),
+    ("C18.R9", c09.r3, "no spurious 'unsupported command' warnings: the source-file predicate agrees with language detection (= C09.R3)"),
+    ("C06.R11", c09.r3, "a file does not silently leave the counted code base because of a second dot in its name (= C09.R3)"),
     ("C05.R5", c17.r3, "a file is scanned with the line source of its (inherited) language (= C17.R3)"),
 ]
 
